@@ -78,6 +78,18 @@ func sequential(r *run.R) {
 		rng := r.Rand(14, 1, uint64(i))
 		cfg := genCfg(rng)
 		ops := genHistory(rng, 50+rng.IntN(50))
+		if i%6 == 5 {
+			// non-default wiring: the decayer has a clock of its own, which stands still
+			cfg.SplitClock = true
+			for k := range ops {
+				switch ops[k].K {
+				case "bump":
+					ops[k] = op{K: "tag", P: ops[k].P, Tag: plainTags[k%3], V: ops[k].V}
+				case "dremove":
+					ops[k] = op{K: "untag", P: ops[k].P, Tag: plainTags[k%3]}
+				}
+			}
+		}
 		var res *seqResult
 		synctest.Test(r.T, func(*testing.T) { res = runSeq(cfg, ops) })
 		mu.Lock()
@@ -85,6 +97,9 @@ func sequential(r *run.R) {
 		r.Eval(1)
 		for k, v := range res.counts {
 			r.Count(k, v)
+			if cfg.SplitClock && (k == "explicit_trims" || k == "background_trims") {
+				r.Count(k+"_with_a_separate_decayer_clock", v)
+			}
 		}
 		if res.nontriv {
 			r.Nontrivial(caseID)
